@@ -37,6 +37,9 @@ impl Batch {
 const CHAIN_CLASSES: &[&str] = &["chain-malformed", "descriptor-shared", "ring-slot-reused", "avail-idx-jump", "inflight-descriptor-modified", "inflight-ring-slot-modified", "device-fetch"];
 /// Platform sharing ledger (C04).
 const SHARE_CLASSES: &[&str] = &["unshare-mismatch", "unshare-while-posted", "share-empty", "share-direction-both", "share-leaked", "device-mem-fault"];
+/// Register/configuration accesses that leave the region or window the device declared (C07:
+/// device-reported configuration values must not lead to an invalid memory access).
+const WILD_ACCESS_CLASSES: &[&str] = &["config-access-out-of-window", "config-access-outside-window", "config-access-elsewhere", "pci-access-outside-requested-window", "pci-access-outside-structures", "mmio-out-of-region", "mmio-wild-access"];
 /// Notification suppression in both directions (C05).
 const NOTIFY_CLASSES: &[&str] = &["lost-notification", "interrupt-not-armed", "used-event-not-rearmed", "event-idx-not-negotiated", "wait-never-ends"];
 
@@ -99,6 +102,7 @@ pub fn spec(id: &str) -> Option<Spec> {
                 b("drivers_blk", scen::c14::honest, 1500, 60_000).only(SHARE_CLASSES),
                 b("drivers_sound", scen::c20::sound_run, 1500, 60_000).only(SHARE_CLASSES),
                 b("drivers_gpu", scen::c20::gpu_run, 1000, 40_000).only(SHARE_CLASSES),
+                b("drivers_net", scen::c16::raw_run, 1500, 60_000).only(SHARE_CLASSES),
             ],
             extras: vec![],
             assumptions: vec!["platform layer always bounces (device address never equals virtual address)"],
@@ -303,6 +307,8 @@ pub fn spec(id: &str) -> Option<Spec> {
                 b("net_short_len", scen::c16::buf_run_short_len, 3000, 60_000),
                 b("owning_scribbled", scen::c07::owning_scribbled, 2000, 50_000),
                 b("vsock_scribbled", scen::c07::vsock_scribbled, 2000, 50_000),
+                b("config_bounds", scen::c13::bounds, 3000, 150_000).only(WILD_ACCESS_CLASSES),
+                b("pci_functions", scen::c11::run, 5000, 300_000).only(WILD_ACCESS_CLASSES),
             ],
             extras: vec![],
             assumptions: vec![
